@@ -256,7 +256,7 @@ def drive_trace(cmd_args, out, n_cases, timeout=600, max_crashes=4, on_crash=Non
         if asan:
             rc = "asan: " + asan
         with open(out, "a") as f:
-            rec = on_crash(info, kind, rc) if on_crash else {"case": info["case"], "op": info["op"], "ret": {kind: rc}, "proj": {kind: True}}
+            rec = on_crash(info, kind, rc) if on_crash else {"e": kind.capitalize(), "case": info["case"], "op": info["op"], "ret": {kind: rc}, "proj": {kind: True}}
             f.write(json.dumps(rec) + "\n")
         crashes += 1
         start = info["case"] + 1
